@@ -405,6 +405,10 @@ func c11Judge(run *core.Run, h c11Host, reg c11Reg, hostile int) string {
 			return fmt.Sprintf("outer error %T is not the embedded minifier's positioned error", err)
 		}
 		line, col := lineCol(h.Doc, s.Offset)
+		if pe.Line == 1 && pe.Column == 1 && (line != 1 || col != 1) {
+			// not the recorded mistranslation (open finding embedded-error-position) but no translation at all
+			return fmt.Sprintf("embedded failure in the %s slot (line %d column %d of the host) is reported at the embedded minifier's own coordinates (line 1 column 1): not located inside the outer document", s.Kind, line, col)
+		}
 		if pe.Line != line || pe.Column != col {
 			return fmt.Sprintf("POSITION: embedded failure at the start of the %s slot (line %d column %d of the host) is reported at line %d column %d", s.Kind, line, col, pe.Line, pe.Column)
 		}
@@ -825,6 +829,7 @@ func C11(run *core.Run) {
 		case strings.HasPrefix(v, "REJECTED:"):
 			run.Count("host_rejected")
 		case strings.HasPrefix(v, "POSITION:"):
+			run.Count("position_mismatch_host:" + h.Lang)
 			if run.KnownSignature("embedded-error-position") {
 				return
 			}
